@@ -3,58 +3,37 @@ import CpProofs.Hello
   C02 for the body parsers of the hello extension classes with structured bodies and for
   CertificateRequest: parsing untrusted bytes fails only with the documented parse errors.
 
-  FULL statement (`extBody_noCrash_full`): no body parser ever ends in an exception outside the four
-  documented ones.  It is FALSE of the code for one class: `SignedCertificateTimestamp` is built with
-  `timestamp=None` when the wire carries the all-ones "no timestamp" sentinel and its attrs validator
-  raises `TypeError` (`extBody_noCrash_fails`, a 49-byte SCT list).  For server_name the model itself
-  stops at the idna codec (`UNMODELLED`, not a statement about the code).  What holds is proved for
-  every class (`extBody_noCrash_partial`) and, crash-free, for the other seven layouts.
+  `extBody_noCrash_full`: the only crash constructor a body parser can end in is the model's own
+  boundary marker, and only for server_name (the model stops at the idna codec; that is not a
+  statement about the code).  Every other layout — the SCT list included, whose all-ones timestamp is
+  an `InvalidValue` now — is crash-free (`extBody_noCrash`).
 -/
 namespace Cp.C02
 open Cp Cp.Codec Cp.Tls Cp.Hello
 
-def extBody_noCrash_full : Prop :=
-  ∀ (k : Ext2Kind) (len : Nat) (rest : Bytes) (c : String), parseExt2Body k len rest ≠ .error (.crash c)
-
-/-- one SCT whose timestamp is `ff ff ff ff ff ff ff ff` -/
-def sctSentinelList : Bytes :=
-  [0, 49, 0, 47, 0] ++ List.replicate 32 0x11 ++ List.replicate 8 0xff ++ [0, 0, 4, 3, 0, 0]
-
-theorem extBody_noCrash_fails : ¬ extBody_noCrash_full := by
-  intro h
-  exact h .sctList 51 sctSentinelList "TypeError" (by decide +kernel)
-
-/-- every crash kind of a body parser: the model's boundary marker (server_name only) or that
-`TypeError` (SCT list only) -/
-theorem extBody_noCrash_partial {k : Ext2Kind} {len : Nat} {rest : Bytes} {c : String}
-    (h : parseExt2Body k len rest = .error (.crash c)) :
-    (k = .serverName ∧ c = "UNMODELLED") ∨ (k = .sctList ∧ c = "TypeError") := by
-  rcases parseExt2Body_err h with hb | ⟨hk, he⟩ | ⟨hk, he⟩ | ⟨_, he⟩
+/-- every crash kind of a body parser is the model's boundary marker of server_name -/
+theorem extBody_noCrash_full {k : Ext2Kind} {len : Nat} {rest : Bytes} {c : String}
+    (h : parseExt2Body k len rest = .error (.crash c)) : k = .serverName ∧ c = "UNMODELLED" := by
+  rcases parseExt2Body_err h with hb | ⟨hk, he⟩ | ⟨_, he⟩
   · exact absurd rfl (hb.not_crash c)
-  · left; exact ⟨hk, by simpa [unmodelled] using he⟩
-  · right; cases he; exact ⟨hk, rfl⟩
+  · exact ⟨hk, by simpa [unmodelled] using he⟩
   · cases he
 
-/-- ALPN/ALPS, NPN, status_request, the three server/client key_share forms, token_binding: no crash -/
-theorem extBody_noCrash {k : Ext2Kind} (h1 : k ≠ .serverName) (h2 : k ≠ .sctList) (len : Nat) (rest : Bytes)
-    (c : String) : parseExt2Body k len rest ≠ .error (.crash c) := by
-  intro h
-  rcases extBody_noCrash_partial h with ⟨hk, _⟩ | ⟨hk, _⟩
-  · exact h1 hk
-  · exact h2 hk
+/-- ALPN/ALPS, NPN, status_request, the key_share forms, token_binding, the SCT list: no crash -/
+theorem extBody_noCrash {k : Ext2Kind} (h1 : k ≠ .serverName) (len : Nat) (rest : Bytes) (c : String) :
+    parseExt2Body k len rest ≠ .error (.crash c) := fun h => h1 (extBody_noCrash_full h).1
 
 /-- every error of a body parser, classified -/
 theorem extBody_errors {k : Ext2Kind} {len : Nat} {rest : Bytes} {e : PErr}
     (h : parseExt2Body k len rest = .error e) :
-    Benign e ∨ (k = .serverName ∧ e = unmodelled) ∨ (k = .sctList ∧ e = .crash "TypeError") ∨
-      (k.declines len = true ∧ e = .invalidType) :=
+    Benign e ∨ (k = .serverName ∧ e = unmodelled) ∨ (k.declines len = true ∧ e = .invalidType) :=
   parseExt2Body_err h
 
 /-- the item loops inside the bodies always terminate (every item parser consumes at least a byte) -/
 theorem extBody_terminates (k : Ext2Kind) (len : Nat) (rest : Bytes) :
     parseExt2Body k len rest ≠ .error (.crash "NonTermination") := by
   intro h
-  rcases extBody_noCrash_partial h with ⟨_, hc⟩ | ⟨_, hc⟩ <;> exact absurd hc (by decide)
+  exact absurd (extBody_noCrash_full h).2 (by decide)
 
 /-- `InvalidType` comes from exactly one class and exactly when the declared length is not two -/
 theorem extBody_invalidType_iff (k : Ext2Kind) (len : Nat) (rest : Bytes) :
@@ -69,6 +48,12 @@ theorem extBody_invalidType_iff (k : Ext2Kind) (len : Nat) (rest : Bytes) :
 
 /-- `TlsHandshakeCertificateRequest`: no crash -/
 theorem tlsCertificateRequestMessage : NoCrash certificateRequestCodec := certificateRequest_noCrash
+
+/-! regression: one SCT whose timestamp is `ff ff ff ff ff ff ff ff` used to end in `TypeError` -/
+def sctSentinelList : Bytes :=
+  [0, 49, 0, 47, 0] ++ List.replicate 32 0x11 ++ List.replicate 8 0xff ++ [0, 0, 4, 3, 0, 0]
+
+example : parseExt2Body .sctList 51 sctSentinelList = .error .invalidValue := by decide +kernel
 
 /-! non-vacuity: the documented errors are reachable in the new bodies -/
 example : parseExt2Body .keyShareServer 4 [0xff, 0xff, 0, 0] = .error .invalidValue := by decide +kernel
